@@ -259,7 +259,9 @@ def user_contents(wt, pool):
                     why = "not-written-by-user-phase"
                 elif fid is not None and mm.get(path) == _sha(content):
                     why = "merge-modified-current-sha"
-                elif path in helpers or (fid is None and path.rpartition("/")[2] in helper_basenames):
+                elif path in helpers or ((fid is None or cls == "added") and path.rpartition("/")[2] in helper_basenames):
+                    # (a helper file the user has `add`ed is still the helper file resolve() cleans up once revert has
+                    # moved its directory back: thorough seed 1 case 2821)
                     why = "conflict-helper-of-earlier-merge"
                 if why:
                     excl[why] = excl.get(why, 0) + 1
